@@ -128,13 +128,26 @@ def run(ctx):
         ctx.inst("L2", sa, sup[0], "local names: stored on the link itself, same name and value")
     else:
         ctx.viol("L2", sa, sa.node, "for local names __setattr__ does not do super().__setattr__(name, value)", construct="__setattr__ local branch")
-    if len(fwd) == 1 and [norm(a) for a in fwd[0].args] == ["%s.target" % sa.selfname, namep, valp] and only_for_foreign(fwd[0]):
+    from .common import resolve_local as _rl
+
+    def _fwd_args(c_):
+        a_ = list(c_.args)
+        if a_ and isinstance(a_[0], ast.Name):
+            r_ = _rl(sa, a_[0])  # `target = self.target` read once into a local
+            if r_ is not None:
+                return [norm(r_)] + [norm(x) for x in a_[1:]]
+        return [norm(x) for x in a_]
+    if len(fwd) == 1 and _fwd_args(fwd[0]) == ["%s.target" % sa.selfname, namep, valp] and only_for_foreign(fwd[0]):
         ctx.inst("L2", sa, fwd[0], "other names: setattr(self.target, name, value)")
     else:
         ctx.viol("L2", sa, sa.node, "for other names __setattr__ does not do setattr(self.target, name, value)", construct="__setattr__ forwarding branch")
     stores = [n for n in walk_own(sa.node) if isinstance(n, ast.Attribute) and isinstance(n.ctx, (ast.Store, ast.Del))]
     extra = [c for c in walk_own(sa.node) if isinstance(c, ast.Call) and c not in sup + fwd and norm(c.func) not in ("super",)
              and not (isinstance(c.func, ast.Name) and c.func.id == "super")]
+    # a refusal (raise AttributeError) when the target read is None is no effect: message construction inside a raise is ignored
+    in_raise = {id(x) for rz in walk_own(sa.node) if isinstance(rz, ast.Raise) and rz.exc is not None and "AttributeError" in norm(rz.exc)
+                for x in ast.walk(rz)}
+    extra = [c for c in extra if id(c) not in in_raise]
     if stores or extra:
         ctx.viol("L2", sa, (stores + extra)[0], "__setattr__ does something besides the two delegations", construct="__setattr__ extra effect")
     # ---- L2 __getattr__ fall-through
@@ -210,8 +223,8 @@ def run(ctx):
         ok = False
         ctx.viol("L2", ga, extra[0], "__getattr__ refuses to forward names under the additional condition `%s`: reads of such "
                  "attributes no longer reach the target" % norm(extra[0]), construct="__getattr__ extra refusal %s" % norm(extra[0]))
-    elif gtabs and set().union(*[t for _, t in gtabs]) - links - {"__setstate__"}:
-        more = sorted(set().union(*[t for _, t in gtabs]) - links - {"__setstate__"})
+    elif gtabs and set().union(*[t for _, t in gtabs]) - links - {"__setstate__", "target"}:
+        more = sorted(set().union(*[t for _, t in gtabs]) - links - {"__setstate__", "target"})
         ok = False
         ctx.viol("L2", ga, gtabs[0][0], "__getattr__ refuses to forward %s: only the link fields and __setstate__ are the link's own" % more,
                  construct="__getattr__ refuses %s" % more)
